@@ -268,7 +268,7 @@ def run_body_factory(name, N, G, nparams, boxset, seed, on_bounds=False):
                 if ctx.choose("fault", 2, 1, "objective") == 1:
                     raise TimeoutError("injected")
         problem, alg, exc = run_algorithm(name, ctx, seed, N, G, n_params=nparams, n_costs=2, bounds=[list(b) for b in bounds0], prepare=prepare, before=before,
-                                          shim_cfg={"extreme_values": True, "price_value": 1, "price_decision": 1, "price_pick": 1})
+                                          shim_cfg={"extreme_values": True, "price_value": 1, "price_decision": 1, "price_pick": 1, "max_draws": max(5000, 300 * N * (G + 1))})
         desc = "%s N=%d G=%d nparams=%d boxes=%r%s" % (name, N, G, nparams, bounds, (" (%s)" % on_bounds if isinstance(on_bounds, str) else " initial designs on the bounds, failures possible") if on_bounds else "")
         out = []
         if exc is not None:
